@@ -92,7 +92,7 @@ fn dump(o: &Obl, paths: &[(Vec<(u32, bool)>, obl::Res<sym::SymB>)], mode: &str, 
         let partial: Vec<String> = a
             .partial
             .iter()
-            .map(|(k, ops, pc)| format!("[\"{}\",[{}],{}]", k, ops.iter().map(|x| x.to_string()).collect::<Vec<_>>().join(","), pc))
+            .map(|(k, ops, pc, run)| format!("[\"{}\",[{}],{},{}]", k, ops.iter().map(|x| x.to_string()).collect::<Vec<_>>().join(","), pc, run))
             .collect();
         println!(
             "{{{},\"mode\":\"{}\",\"paths_truncated\":{},\"nodes\":[{}],\"paths\":[{}],\"partial\":[{}]}}",
@@ -122,6 +122,7 @@ fn emit(o: &Obl) {
                 break;
             }
             sym::decider_start(prefix.clone());
+            arena::with(|a| a.run = paths.len() as u32);
             let res = f(&vars);
             let trail = sym::decider_trail();
             // schedule the siblings of every decision made beyond the prefix
